@@ -23,7 +23,7 @@ Definition set_key (n : node) (k : option bytes) : node :=
 Definition set_ty (n : node) (t : Z) : node :=
   let 'Node _ s i d k cs := n in Node t s i d k cs.
 
-Fixpoint remove_nth {A} (i : nat) (l : list A) : list A :=
+Fixpoint remove_nth {A} (i : nat) (l : list A) {struct l} : list A :=
   match l with
   | [] => []
   | x :: r => match i with O => r | S j => x :: remove_nth j r end
@@ -33,7 +33,7 @@ Fixpoint insert_nth {A} (i : nat) (x : A) (l : list A) : list A :=
   | O => x :: l
   | S j => match l with [] => [x] | y :: r => y :: insert_nth j x r end
   end.
-Fixpoint replace_nth {A} (i : nat) (x : A) (l : list A) : list A :=
+Fixpoint replace_nth {A} (i : nat) (x : A) (l : list A) {struct l} : list A :=
   match l with
   | [] => []
   | y :: r => match i with O => x :: r | S j => y :: replace_nth j x r end
